@@ -401,14 +401,15 @@ func reportProgramViolation(ctx *Ctx, lane string, mk func() *Inst, prog []Step,
 }
 
 // connCommand handles the connection-level commands that the data models do not know:
-// SELECT (per connection) and SWAPDB (all TCP connections). Embedded callers select with Step.DB.
+// SELECT (per connection), SWAPDB (all TCP connections) and the handshake commands HELLO / PING / ECHO
+// (which must not move the connection to another database). Embedded callers select with Step.DB.
 func (s *Session) connCommand(step Step, env model.Env) (StepResult, bool) {
 	var res StepResult
 	if len(step.Argv) == 0 || step.Conn == "" {
 		return res, false
 	}
 	name := strings.ToLower(step.Argv[0])
-	if name != "select" && name != "swapdb" {
+	if name != "select" && name != "swapdb" && name != "hello" && name != "ping" && name != "echo" {
 		return res, false
 	}
 	v, raw, crash := s.do(step)
@@ -427,6 +428,9 @@ func (s *Session) connCommand(step Step, env model.Env) (StepResult, bool) {
 		return n, err == nil && n >= 0 && n < 1<<20
 	}
 	switch name {
+	case "hello", "ping", "echo":
+		// handshake commands: whatever they reply, they leave the connection's selected database and the
+		// dataset alone (the next data command of this connection is checked against the same database)
 	case "select":
 		n, ok := 0, false
 		if len(step.Argv) == 2 {
